@@ -7,9 +7,10 @@ cd "$WT" || exit 3
 git diff -- nessai > /tmp/seed-$NAME.diff
 [ -s /tmp/seed-$NAME.diff ] || { echo "no change in worktree"; exit 3; }
 PYTHONPATH=$WT /venv/bin/python demo_$P.py > /tmp/seed-$NAME.with.log 2>&1; RC_WITH=$?
-git stash -q
+# (no `git stash`: the stash is shared by all worktrees of the repository)
+git apply -R /tmp/seed-$NAME.diff
 PYTHONPATH=$WT /venv/bin/python demo_$P.py > /tmp/seed-$NAME.without.log 2>&1; RC_WITHOUT=$?
-git stash pop -q
+git apply /tmp/seed-$NAME.diff
 echo "demo with change: exit $RC_WITH ; without: exit $RC_WITHOUT"
 NESSAI_REPO=$WT PYVC_OUT=/tmp/seed-$NAME.out /verif/vcheck $P > /tmp/seed-$NAME.check.log 2>&1; RC_CHECK=$?
 grep -E "^VIOLATION|^\[" /tmp/seed-$NAME.check.log | head -6
